@@ -170,8 +170,38 @@ def build_harness(workdir, driver, extra=(), san=None):
         return None, r.stdout + r.stderr
     return r.stdout.strip().splitlines()[-1], ''
 
+DRIVER_OVERRIDE = None
+
 def driver_path():
-    return os.path.join(LEAN, '.lake', 'build', 'bin', 'driver')
+    return DRIVER_OVERRIDE or os.path.join(LEAN, '.lake', 'build', 'bin', 'driver')
+
+REFERENCE = os.path.join(VERIF, 'reference', 'Generated')
+
+def generated_differs_from_reference():
+    """names of the translated files whose content is no longer what the committed proofs were checked against"""
+    out = []
+    for f in sorted(os.listdir(REFERENCE)):
+        g = os.path.join(LEAN, 'LibconfigModel', 'Generated', f)
+        if not os.path.exists(g) or open(g).read() != open(os.path.join(REFERENCE, f)).read():
+            out.append(f)
+    return out
+
+def build_reference_driver():
+    """The model driver built over the committed reference translation (the tables, action catalogue,
+    constants and inventories the theorems were last proved about) instead of the current one: used as
+    the specification when searching for a failing input after a proof obligation broke."""
+    global DRIVER_OVERRIDE
+    dst = os.path.join(WORK_ROOT, 'refmodel-%d' % os.getpid())
+    shutil.rmtree(dst, ignore_errors=True)
+    r = sh(['rsync', '-a', '--exclude', '.lake', LEAN + '/', dst + '/'])
+    for f in os.listdir(REFERENCE):
+        shutil.copy(os.path.join(REFERENCE, f), os.path.join(dst, 'LibconfigModel', 'Generated', f))
+    r = sh(['lake', 'build', 'driver'], cwd=dst, timeout=3600)
+    if r.returncode != 0:
+        shutil.rmtree(dst, ignore_errors=True)
+        return None, (r.stdout + r.stderr)[-2000:]
+    DRIVER_OVERRIDE = os.path.join(dst, '.lake', 'build', 'bin', 'driver')
+    return dst, ''
 
 def run_model(ops, timeout=1800):
     """Run the Lean driver on a list of op lines; returns list of output lines."""
